@@ -900,8 +900,20 @@ func c05FreshRows(c *Ctx, rule string) {
 	if f := c.NeedFunc(rule, "engine.projectColumns"); f != nil {
 		key := f.Name + "|new-values-fresh"
 		var tgt types.Object
+		// the row being projected, under whatever name: the variable whose Vals field is replaced
+		rowVals := "row.Vals"
 		inspectBody(f.Decl.Body, func(x ast.Node) bool {
-			if as, ok := x.(*ast.AssignStmt); ok && len(as.Lhs) == 1 && exprKey(as.Lhs[0]) == "row.Vals" {
+			if as, ok := x.(*ast.AssignStmt); ok && len(as.Lhs) == 1 {
+				if sel, ok := ast.Unparen(as.Lhs[0]).(*ast.SelectorExpr); ok && sel.Sel.Name == "Vals" {
+					if _, isId := ast.Unparen(sel.X).(*ast.Ident); isId {
+						rowVals = exprKey(as.Lhs[0])
+					}
+				}
+			}
+			return true
+		})
+		inspectBody(f.Decl.Body, func(x ast.Node) bool {
+			if as, ok := x.(*ast.AssignStmt); ok && len(as.Lhs) == 1 && exprKey(as.Lhs[0]) == rowVals {
 				if id, ok := ast.Unparen(as.Rhs[0]).(*ast.Ident); ok {
 					tgt = f.ObjOf(id)
 				}
@@ -920,14 +932,14 @@ func c05FreshRows(c *Ctx, rule string) {
 							if _, self := f.isSelfAppend(y, tgt); self {
 								continue
 							}
-							if strings.Contains(exprKey(y.Rhs[i]), "row.Vals") {
+							if strings.Contains(exprKey(y.Rhs[i]), rowVals) {
 								aliased = exprKey(y.Rhs[i])
 							}
 						}
 					}
 				case *ast.ValueSpec:
 					for i, nm := range y.Names {
-						if f.ObjOf(nm) == tgt && i < len(y.Values) && strings.Contains(exprKey(y.Values[i]), "row.Vals") {
+						if f.ObjOf(nm) == tgt && i < len(y.Values) && strings.Contains(exprKey(y.Values[i]), rowVals) {
 							aliased = exprKey(y.Values[i])
 						}
 					}
@@ -1918,7 +1930,6 @@ func isCommaOK(f *Func, id *ast.Ident) bool {
 	return found
 }
 
-
 // descQuery recognises, inside a sort comparator, the expressions that mean "the key being compared is
 // DESC" (polarity true) or "… is ASC" (polarity false), and evaluates the comparator's tail.
 type descQuery struct {
@@ -2204,7 +2215,6 @@ func (q *descQuery) run(stmts []ast.Stmt, lessVar string, L, D bool) (bool, stri
 	}
 	return v, status
 }
-
 
 // runSeedArm executes the statements of the COUNT seeding arm with "the argument is a column reference" =
 // hasCol and "that column's value in this row is NULL" = isNull, and returns the value it appends.
